@@ -7,18 +7,20 @@ use yuvxyb::{Hsl, LinearRgb};
 
 pub fn to_hsl(px: &[[f32; 3]]) -> Result<Vec<[f32; 3]>, String> {
     let len = px.len();
-    let lin = LinearRgb::new(px.to_vec(), len, 1).map_err(|e| format!("{e:?}"))?;
+    let (w, h) = crate::img::shape_of(len);
+    let lin = LinearRgb::new(px.to_vec(), w, h).map_err(|e| format!("{e:?}"))?;
     let hsl = guarded(|| Hsl::from(lin))?;
-    if hsl.width() != len || hsl.height() != 1 || hsl.data().len() != len {
+    if hsl.width() != w || hsl.height() != h || hsl.data().len() != len {
         return Err("dims changed".into());
     }
     Ok(hsl.data().to_vec())
 }
 pub fn from_hsl(px: &[[f32; 3]]) -> Result<Vec<[f32; 3]>, String> {
     let len = px.len();
-    let hsl = Hsl::new(px.to_vec(), len, 1).map_err(|e| format!("{e:?}"))?;
+    let (w, h) = crate::img::shape_of(len);
+    let hsl = Hsl::new(px.to_vec(), w, h).map_err(|e| format!("{e:?}"))?;
     let lin = guarded(|| LinearRgb::from(hsl))?;
-    if lin.width() != len || lin.height() != 1 || lin.data().len() != len {
+    if lin.width() != w || lin.height() != h || lin.data().len() != len {
         return Err("dims changed".into());
     }
     Ok(lin.data().to_vec())
